@@ -125,7 +125,12 @@ impl RecordBatchDecoder<'_> {
                         "Invalid variadic count for {data_type} column: {count}"
                     )));
                 }
-                let count = count + 2; // view and null buffer.
+                // view and null buffer.
+                let count = count.checked_add(2).ok_or_else(|| {
+                    ArrowError::IpcError(format!(
+                        "Invalid variadic count for {data_type} column: {count}"
+                    ))
+                })?;
                 let buffers = (0..count)
                     .map(|_| self.next_buffer())
                     .collect::<Result<Vec<_>, _>>()?;
